@@ -1,6 +1,6 @@
 """Adapters that run pure-layer cases on the real simpleline code (imported from /repo's working tree)."""
-import sys, textwrap
-REPO = "/repo"
+import os, sys, textwrap
+REPO = os.environ.get("VERIF_REPO", "/repo")
 if REPO not in sys.path:
     sys.path.insert(0, REPO)
 from simpleline.render import widgets as RW, containers as RC   # noqa: E402
